@@ -1076,6 +1076,9 @@ API_DELEGATIONS = [
     ("yrs::types::xml::XmlFragment::len", r"Branch::len$", {0: "AsRef::as_ref(self)"}, None),
     ("yrs::types::array::Array::len", r"Branch::len$", {0: "AsRef::as_ref(self)"}, None),
     ("yrs::branch::Branch::insert_at", r"Branch::index_to_ptr$", {1: "self.start", 2: "index"}, None),
+    # the running attribute set: a mark overwrites the value of its key, a null mark removes the key
+    ("yrs::types::text::update_current_attributes", r"HashMap::insert$", {0: "attrs", 1: "key", 2: "value"}, None),
+    ("yrs::types::text::update_current_attributes", r"HashMap::remove$", {0: "attrs", 1: "key"}, None),
 ]
 
 
